@@ -10,4 +10,6 @@ import sys; sys.path.insert(0,'.')
 from psa import facts
 d,i = facts.build_facts('lib')
 print('facts:', d, i)
+facts.load_fixtures()
+print('fixture facts ok')
 "
